@@ -31,7 +31,8 @@ type Arg struct {
 }
 
 func (c Chunk) String() string {
-	q := func(s string) string { return strconv.Quote(s) }
+	// a raw % would end the chunk: inside a function argument it is written as a Go escape
+	q := func(s string) string { return strings.ReplaceAll(strconv.Quote(s), "%", `\x25`) }
 	switch c.Kind {
 	case "lit":
 		return c.S
